@@ -295,10 +295,11 @@ def _p_fpi(bounds, config):
 
 def _finite_or_nan(v):
     """the value is NaN or a finite real (no infinity)"""
+    from pyvc import lib as _lib
     if isinstance(v, _T.XR):
-        return Or(v.nan, Not(_T.cmp("==", v.v, _T.INF)))
+        return Or(v.nan, _lib._finite_plain(v.v))
     if is_symbolic(v):
-        return Not(_T.cmp("==", v, _T.INF))
+        return _lib._finite_plain(v)          # v != inf; under the contract option finite_reals every non-NaN value is finite
     import math
     return not math.isinf(v)
 
@@ -311,41 +312,23 @@ def _conv_test(x, p, atol, rtol):
 
 
 def _clamp(v, p, bounds):
-    """the solver's bounds step: a value at or below the lower bound (above the upper bound) is replaced by the midpoint of the previous
-    iterate and the bound; NaN compares false and is kept"""
+    """the solver's bounds step (symbolic values): a value at or below the finite lower bound (above the finite upper bound) is replaced
+    by the midpoint of the previous iterate p and the bound; comparisons with NaN are false, so a NaN value is kept"""
     lo, hi = bounds
-    half = _q(1, 2, 1.0 if not is_symbolic(v, p, lo, hi) else _T.INF)
-    def where(c, a, b):
-        return If(c, a, b)
-    if not (_T.is_sym(lo) and (lo.eq(_T.NINF))):
-        v = _xite(_xcmp("<=", v, lo), _xadd(_xmul(_xsub(lo, p), half), p), v)
+    half = Fraction(1, 2)
+    if not (_T.is_sym(lo) and lo.eq(_T.NINF)):
+        v = _T.ite(_T.cmp("<=", v, lo), _T.add(_T.mul(_T.sub(lo, p), half), p), v)
     if not (_T.is_sym(hi) and hi.eq(_T.INF)):
-        v = _xite(_xcmp(">", v, hi), _xadd(_xmul(_xsub(hi, p), half), p), v)
+        v = _T.ite(_T.cmp(">", v, hi), _T.add(_T.mul(_T.sub(hi, p), half), p), v)
     return v
-
-
-def _xcmp(op, a, b):
-    return _T.cmp(op, a, b)
-
-
-def _xite(c, a, b):
-    return _T.ite(c, a, b)
-
-
-def _xadd(a, b):
-    return _T.add(a, b)
-
-
-def _xsub(a, b):
-    return _T.sub(a, b)
-
-
-def _xmul(a, b):
-    return _T.mul(a, b)
 
 
 def _cell(arr, e):
     return arr.get((e,))
+
+
+def _len(x):
+    return x.n if hasattr(x, "n") else len(x)
 
 
 def _fpi_bounds(a):
@@ -371,10 +354,96 @@ def _fpi_exit(a):
     return a._ghost.get("inv1.exit")
 
 
+# ---- executable twin (witnesses on the real function): the function is wrapped so that its calls are recorded
+class _NativeRun:
+    def __init__(self, result, calls, depth_before, depth_after):
+        self.result, self.calls, self.depth_before, self.depth_after = result, calls, depth_before, depth_after
+
+    def __repr__(self):
+        return f"result={self.result!r} function_calls={len(self.calls)} depth {self.depth_before}->{self.depth_after}"
+
+
+def _fpi_native_call(kwargs, inst):
+    import numpy as np
+    from ocean_science_utilities.tools import solvers
+    calls, f = [], kwargs["function"]
+
+    def recording(x):
+        y = f(x)
+        calls.append((np.array(x, dtype="float64", copy=True), np.array(y, dtype="float64", copy=True)))
+        return y
+    kw = dict(kwargs, function=recording)
+    d0 = solvers._iteration_depth
+    try:
+        res = solvers.fixed_point_iteration(**kw)
+    except Exception:
+        solvers._iteration_depth = d0        # (the counter is not restored on exceptional exits: outside the clauses)
+        raise
+    return _NativeRun(np.asarray(res, dtype="float64"), calls, d0, solvers._iteration_depth)
+
+
+def _n_cfg(a, name):
+    c = a.configuration if "configuration" in a else None
+    return CFG_DEFAULT[name] if c is None else getattr(c, name)
+
+
+def _n_test(x, p, atol, rtol):
+    import numpy as np
+    with np.errstate(all="ignore"):
+        d = np.abs(x - p)
+        return (d < atol) & (d / np.maximum(np.abs(p), atol) < rtol)
+
+
+def _n_clamp(v, p, bounds):
+    import numpy as np
+    lo, hi = bounds
+    with np.errstate(all="ignore"):
+        if np.isfinite(lo):
+            v = np.where(v <= lo, (lo - p) * 0.5 + p, v)
+        if np.isfinite(hi):
+            v = np.where(v > hi, (hi - p) * 0.5 + p, v)
+    return v
+
+
+def _n_converged_exit(a, R):
+    """every finite-guess cell returned non-NaN: the loop was left by `break` (or every cell passed the test in the last iteration)"""
+    import numpy as np
+    fin = np.isfinite(a.guess)
+    return bool(np.all(~np.isnan(R.result[fin])))
+
+
+def _native_converged(a, R):
+    import numpy as np
+    if float(_n_cfg(a, "fraction_of_points")) != 1.0 or not _n_converged_exit(a, R):
+        return True
+    if not R.calls:
+        return not np.isfinite(a.guess).any() and int(_n_cfg(a, "max_iter")) <= 0
+    if _n_cfg(a, "aitken_acceleration") and int(_n_cfg(a, "max_iter")) % 3 == 0:
+        return True          # an exhausted loop whose last step was an Aitken step is not told apart natively: not sampled
+    prev, fprev = R.calls[-1]
+    fin = np.isfinite(a.guess)
+    bounds = a.bounds if "bounds" in a else (-np.inf, np.inf)
+    ok = _n_test(R.result, prev, float(_n_cfg(a, "atol")), float(_n_cfg(a, "rtol"))) & np.isclose(R.result, _n_clamp(fprev, prev, bounds), rtol=1e-12, atol=0, equal_nan=True)
+    return bool(np.all(ok[fin]))
+
+
+def _native_exhausted(a, R):
+    import numpy as np
+    if _n_converged_exit(a, R) or not R.calls or (_n_cfg(a, "aitken_acceleration") and int(_n_cfg(a, "max_iter")) % 3 == 0):
+        return True
+    prev = R.calls[-1][0]
+    ok = np.isnan(R.result) | _n_test(R.result, prev, float(_n_cfg(a, "atol")), float(_n_cfg(a, "rtol")))
+    return bool(np.all(ok)) and not _n_cfg(a, "error_if_not_converged")
+
+
 def _post_converged_exit(a, r):
     """loop left through `break` with fraction_of_points == 1: every cell whose guess is finite is an approximate fixed point"""
+    if isinstance(r, _NativeRun):
+        return _native_converged(a, r)
     if _fpi_exit(a) != "break":
         return True
+    if "function_call" not in a._ghost:
+        return False                 # left through `break` after a step that did not apply the function (Aitken extrapolation)
     prev, fprev = a._ghost["function_call"]
     c = a.configuration
     atol, rtol, frac = _cfg(c, "atol"), _cfg(c, "rtol"), _cfg(c, "fraction_of_points")
@@ -387,11 +456,16 @@ def _post_converged_exit(a, r):
 
 
 def _post_missing(a, r):
+    if isinstance(r, _NativeRun):
+        import numpy as np
+        return bool(np.all(np.isnan(r.result[np.isnan(a.guess)])))
     return forall(0, a.guess.n, lambda e: implies(isnan(a.guess[e]), isnan(r[e])))
 
 
 def _post_exhausted(a, r):
     """loop exhausted (for-else), errors off: a cell is NaN unless it passed the convergence test in the last iteration"""
+    if isinstance(r, _NativeRun):
+        return _native_exhausted(a, r)
     if _fpi_exit(a) != "exhausted":
         return True
     c = a.configuration
@@ -402,25 +476,220 @@ def _post_exhausted(a, r):
 
 
 def _post_depth(a, r):
-    return eq(a._snap.globals[(SOLVERS_MODULE, "_iteration_depth")], a.old._depth0) if False else \
-        eq(a._snap.globals[(SOLVERS_MODULE, "_iteration_depth")], _z3.Int("iteration_depth_before"))
+    if isinstance(r, _NativeRun):
+        return r.depth_after == r.depth_before
+    return eq(a._snap.globals[(SOLVERS_MODULE, "_iteration_depth")], _z3.Int("iteration_depth_before"))
+
+
+def _post_length(a, r):
+    if isinstance(r, _NativeRun):
+        return tuple(r.result.shape) == tuple(a.guess.shape)
+    return eq(r.n, a.guess.n)
+
+
+def _fpi_witnesses():
+    import numpy as np
+    from ocean_science_utilities.tools.solvers import Configuration
+    nan = float("nan")
+    U = np.array([0.5, 7.0, nan, 25.0, 60.0])
+
+    def charnock(z):
+        with np.errstate(all="ignore"):
+            us = 0.4 * U / np.log(10.0 / z)
+            return 0.012 * us ** 2 / 9.81 + np.where(us > 0, 0.11 * 1.48e-5 / us, 0.0)
+    half = lambda x: 0.5 * x + 1.0
+    slow = lambda x: 0.999 * x + 1.0
+    out = [("unbounded,default", {"function": half, "guess": np.array([0.0, 10.0, nan, -3.0])}),
+           ("unbounded,default", {"function": np.cos, "guess": np.array([nan, 0.3, 1.0])}),
+           ("unbounded,default", {"function": half, "guess": np.array([nan, nan])}),
+           ("lower,default", {"function": charnock, "guess": 10.0 / np.exp(0.4 / np.sqrt((0.8 + 0.065 * U) / 1000)), "bounds": (0, np.inf)}),
+           ("both,default", {"function": half, "guess": np.array([0.0, nan, 1.9]), "bounds": (-1.0, 1.75)}),
+           ("unbounded,record", {"function": slow, "guess": np.array([0.0, nan, 1000.0]), "configuration": Configuration(max_iter=7)}),
+           ("unbounded,record", {"function": slow, "guess": np.array([0.0, 1.0]), "configuration": Configuration(max_iter=5, error_if_not_converged=True)}),
+           ("unbounded,record", {"function": half, "guess": np.array([0.0, nan, 5.0]), "configuration": Configuration(aitken_acceleration=False, atol=1e-8, rtol=1e-8)}),
+           ("lower,record", {"function": half, "guess": np.array([4.0, nan]), "bounds": (1.0, np.inf), "configuration": Configuration(max_iter=0)})]
+    return out
+
+
+N_FPI_WITNESSES = 9
 
 
 FPI_INST = [(f"{b},{c}", _p_fpi(b, c)) for b in ("unbounded", "lower", "both") for c in ("default", "record")]
+import os as _os
+if _os.environ.get("C10_FPI_ONLY"):          # debugging aid: restrict the solver contract to one instance
+    FPI_INST = [x for x in FPI_INST if x[0] == _os.environ["C10_FPI_ONLY"]]
 fixed_point = Contract(
     S + "fixed_point_iteration", instances=FPI_INST,
-    requires=[("nonempty", lambda a: a.guess.n >= 1),
-              ("guess_cells_are_finite_or_missing", lambda a: forall(0, a.guess.n, lambda e: _finite_or_nan(a.guess[e]))),
+    requires=[("nonempty", lambda a: _len(a.guess) >= 1),
+              ("guess_cells_are_finite_or_missing", lambda a: forall(0, _len(a.guess), lambda e: _finite_or_nan(a.guess[e]))),
               ("finite_bounds", lambda a: And(*[Not(_T.cmp("==", b, _T.INF)) for b in _fpi_bounds(a) if _T.is_sym(b) and not b.eq(_T.INF) and not b.eq(_T.NINF)]))],
     ensures=[("converged_exit_every_finite_guess_cell_is_an_approximate_fixed_point_of_the_clamped_function", _post_converged_exit),
              ("missing_guess_cells_are_returned_missing", _post_missing),
              ("exhausted_exit_returns_nan_or_cells_that_passed_the_convergence_test_and_only_when_errors_are_off", _post_exhausted),
              ("iteration_depth_counter_restored", _post_depth),
-             ("result_has_the_length_of_the_guess", lambda a, r: eq(r.n, a.guess.n))],
-    raises={"ValueError": lambda a: And(a.configuration is not None, _cfg(a.configuration, "error_if_not_converged"))},
-    options={"loop_invariants": {lab: {1: FPI_LOOP} for lab, _ in FPI_INST}, "expose_locals": True, "sum_monotone": True},
+             ("result_has_the_length_of_the_guess", _post_length)],
+    raises={"ValueError": lambda a: And(("configuration" in a) and a.configuration is not None, _cfg(a.configuration if "configuration" in a else None, "error_if_not_converged"))},
+    options={"loop_invariants": {lab: {1: FPI_LOOP} for lab, _ in FPI_INST}, "expose_locals": True, "sum_monotone": True, "native_call": _fpi_native_call},
+    witness=[(lambda k=k: _fpi_witnesses()[k]) for k in range(N_FPI_WITNESSES)],
 )
 fixed_point.loops = {1: FPI_LOOP}
+
+
+# ------------------------------------------------------------------ Charnock roughness from U10 (numpy input): the solver's exit contract at its call site
+import pyvc.models.xr   # noqa  (charnock_roughness_length wraps its argument in a DataArray)
+NU_AIR, GRAV = Fraction(37, 2500000), Fraction(981, 100)
+
+
+def _cells_of(st, v):
+    """e -> possibly-NaN cell of a 1-d numpy array or DataArray value of the symbolic run"""
+    d = st.deref(v)
+    if hasattr(d, "fields") and getattr(d, "cls", None) == "DataArray":
+        arr, nan = d.fields["arr"], d.fields["nan"]
+        return lambda e: _T.xr(arr.get((e,)), nan.get((e,)) if nan is not None else False)
+    return lambda e: d.get((e,))
+
+
+def _fpi_at_charnock_call(mk, a):
+    """fixed_point_iteration as proved above (instance lower,default), used at the call in charnock_roughness_length_from_u10:
+    its preconditions and the hypothesis on `function` are obligations here; its postconditions are assumed for a result array,
+    the previous iterate `z` (exists by the proved postcondition: the argument of the last call of `function`) and the exit taken."""
+    st, interp, ctx = mk.st, mk.interp, mk.ctx
+    g = st.deref(a.guess)
+    lo, hi = a.bounds
+    if not (isinstance(g, _Arr) and g.ndim == 1 and a.configuration is None and _T.is_sym(hi) and hi.eq(_T.INF) and not _T.is_sym(lo)):
+        raise _T.Unsupported("fixed_point_iteration call outside the proved instance (1-d numpy guess, bounds (finite, inf), default configuration)")
+    n = g.shape[0]
+    ctx.oblige(st, "pre.fixed_point_iteration.nonempty", _T.cmp(">=", n, 1))
+    ctx.oblige(st, "pre.fixed_point_iteration.guess_cells_are_finite_or_missing", forall(0, n, lambda e: _finite_or_nan(g.get((e,)))))
+    # hypothesis on the function: a missing cell of the argument is a missing cell of the result -- for an arbitrary argument array
+    zref = mk.array("previous_iterate", (n,), "xreal")
+    z = st.deref(zref)
+    Fz = _cells_of(st, interp.call(st, a.function, [zref], {}))
+    ctx.oblige(st, "pre.fixed_point_iteration.function_maps_missing_cells_to_missing_cells", forall(0, n, lambda e: implies(isnan(z.get((e,))), isnan(Fz(e)))))
+    rref = mk.array("solver_result", (n,), "xreal")
+    r = st.deref(rref)
+    conv = mk.bool("solver_left_by_convergence")
+    atol, rtol = CFG_DEFAULT["atol"], CFG_DEFAULT["rtol"]
+    st.assume(_T.to_z3(forall(0, n, lambda e: implies(isnan(g.get((e,))), isnan(r.get((e,)))))))
+    st.assume(_T.to_z3(implies(conv, forall(0, n, lambda e: implies(notnan(g.get((e,))), And(
+        _conv_test(r.get((e,)), z.get((e,)), atol, rtol), eq(r.get((e,)), _clamp(Fz(e), z.get((e,)), (lo, hi)))))))))
+    st.ghost["solver"] = {"previous_iterate": z, "converged_exit": conv, "guess": g, "function_at_previous_iterate": Fz}
+    return rref
+
+
+FPI_AT_CALL = CalleeContract(S + "fixed_point_iteration", _fpi_at_charnock_call,
+                             note="contract proved above (instance lower,default): preconditions / function hypothesis are call-site obligations, postconditions assumed")
+
+
+def _p_charnock(inst):
+    def p(mk):
+        n = mk.size("n")
+        d = {"speed": mk.array("U", (n,), "xreal")}
+        if inst == "constants_given":
+            d.update({"charnock_constant": mk.real("alpha"), "viscous_constant": mk.real("c_visc")})
+        return d
+    return p
+
+
+def _charnock_F(U, z, alpha, c):
+    """alpha u*^2 / g + c nu / u* (viscous term only for u* > 0) with u* = kappa U / ln(10 / z)"""
+    ustar = _T.div(_T.mul(KAPPA, U), _T.uf("log", _T.div(10, z)))
+    return _T.add(_T.div(_T.mul(alpha, _T.mul(ustar, ustar)), GRAV), _T.ite(_T.cmp(">", ustar, 0), _T.div(_T.mul(c, NU_AIR), ustar), Fraction(0)))
+
+
+class _NativeCharnock:
+    def __init__(self, result, calls):
+        self.result, self.calls = result, calls
+
+    def __repr__(self):
+        return f"z0={self.result!r} function_calls={len(self.calls)}"
+
+
+def _charnock_native_call(kwargs, inst):
+    """the real function, with the solver it calls wrapped so that the calls of the iterated function are recorded"""
+    import numpy as np
+    import warnings
+    from ocean_science_utilities.wavephysics import roughness as Rm
+    calls, orig = [], Rm.fixed_point_iteration
+
+    def solver(function, guess, *args, **kw):
+        def recording(x):
+            y = function(x)
+            calls.append((np.array(x, dtype="float64", copy=True), np.array(y, dtype="float64", copy=True)))
+            return y
+        return orig(recording, guess, *args, **kw)
+    Rm.fixed_point_iteration = solver
+    try:
+        with warnings.catch_warnings():
+            warnings.simplefilter("ignore")
+            res = Rm.charnock_roughness_length_from_u10(**kwargs)
+    finally:
+        Rm.fixed_point_iteration = orig
+    return _NativeCharnock(np.asarray(res, dtype="float64"), calls)
+
+
+def _native_charnock_converged(a, R):
+    import numpy as np
+    U = np.asarray(a.speed, dtype="float64")
+    ok_in = ~np.isnan(U)
+    if not R.calls or np.isnan(R.result[ok_in]).any():
+        return True                              # not the converged exit
+    alpha = float(a.charnock_constant) if "charnock_constant" in a else 0.012
+    c = float(a.viscous_constant) if "viscous_constant" in a else 0.0
+    z = R.calls[-1][0]
+    with np.errstate(all="ignore"):
+        us = 0.4 * U / np.log(10.0 / z)
+        F = alpha * us ** 2 / 9.81 + np.where(us > 0, c * 1.48e-5 / us, 0.0)
+    ok = _n_test(R.result, z, 1e-4, 1e-4) & np.isclose(R.result, _n_clamp(F, z, (0, np.inf)), rtol=1e-9, atol=0)
+    return bool(np.all(ok[ok_in]))
+
+
+def _charnock_converged(a, r):
+    if isinstance(r, _NativeCharnock):
+        return _native_charnock_converged(a, r)
+    sol = a._ghost["solver"]
+    z, conv = sol["previous_iterate"], sol["converged_exit"]
+    alpha = a.charnock_constant if "charnock_constant" in a else Fraction(12, 1000)
+    c = a.viscous_constant if "viscous_constant" in a else Fraction(0)
+    rc = _cells_of(a._snap, a._result_raw)
+    atol, rtol = CFG_DEFAULT["atol"], CFG_DEFAULT["rtol"]
+
+    def cell(e):
+        U, ze, x = a.speed[e], z.get((e,)), rc(e)
+        return implies(notnan(U), And(notnan(ze), _conv_test(x, ze, atol, rtol),
+                                      eq(x, _clamp(_charnock_F(valof(U), valof(ze), alpha, c), valof(ze), (0, _T.INF)))))
+    return implies(conv, forall(0, a.speed.n, cell))
+
+
+def _charnock_missing(a, r):
+    if isinstance(r, _NativeCharnock):
+        import numpy as np
+        return bool(np.isnan(r.result[np.isnan(np.asarray(a.speed, dtype="float64"))]).all())
+    rc = _cells_of(a._snap, a._result_raw)
+    return forall(0, a.speed.n, lambda e: implies(isnan(a.speed[e]), isnan(rc(e))))
+
+
+def _charnock_witnesses():
+    import numpy as np
+    nan = float("nan")
+    U = np.array([0.1, 3.0, nan, 12.0, 33.0, 80.0, nan])
+    return [("default_constants", {"speed": U}),
+            ("constants_given", {"speed": U, "charnock_constant": 0.0185, "viscous_constant": 0.11}),
+            ("constants_given", {"speed": np.array([nan, 7.5]), "charnock_constant": 0.005, "viscous_constant": 0.0}),
+            ("constants_given", {"speed": np.linspace(0.1, 80.0, 50), "charnock_constant": 0.04, "viscous_constant": 0.11})]
+
+
+CH_INST = [("constants_given", _p_charnock("constants_given")), ("default_constants", _p_charnock("default_constants"))]
+charnock_from_u10 = Contract(
+    R + "charnock_roughness_length_from_u10", instances=CH_INST,
+    requires=[("nonempty", lambda a: _len(a.speed) >= 1), ("wind_speeds_nonnegative_or_missing", lambda a: forall(0, _len(a.speed), lambda e: Or(isnan(a.speed[e]), valof(a.speed[e]) >= 0)))],
+    ensures=[("converged_solver_exit_returns_the_charnock_relation_at_a_point_within_the_tolerances_of_the_result", _charnock_converged),
+             ("missing_wind_speeds_give_missing_roughness", _charnock_missing)],
+    callees={FPI_AT_CALL.target: FPI_AT_CALL},
+    options={"finite_reals": True, "native_call": _charnock_native_call},
+    witness=[(lambda k=k: _charnock_witnesses()[k]) for k in range(4)],
+    label="charnock_roughness_length_from_u10[ndarray]",
+)
 
 
 # ------------------------------------------------------------------ bounded: Charnock implicit equation on the real functions
@@ -594,7 +863,7 @@ def _bounded_janssen(tier, seed):
 
 BOUNDED = [Bounded("janssen.stress_balance.compiled", _bounded_janssen, "NaN-or-positive and closure of the stress balance at the returned roughness"),
            Bounded("charnock.implicit_equation", _bounded_charnock, "residual of the implicit Charnock equation at the returned roughness; NaN handling; monotonicity")]
-CONTRACTS = [drag, wu, charnock_point, estimate_point, stress_balance, total_stress, estimate_wiring, fixed_point]
+CONTRACTS = [drag, wu, charnock_point, estimate_point, stress_balance, total_stress, estimate_wiring, fixed_point, charnock_from_u10]
 TRUSTED = ["A-table: exp(x) > 0; sqrt(x) > 0 for x > 0; log is an uninterpreted function (formula contracts are syntactic in log)",
            "np.nan is an opaque non-real value in the model (np.isnan of a real is False: NaN *inputs* are outside the real model and are sampled in the bounded stand-in)"]
 EXPLANATION = ("formula fragments and the NaN-or-positive exit contract of the Janssen estimate are proved; the Charnock fixed point "
